@@ -1964,7 +1964,12 @@ void identify_global_search_terms(mmd_engine * e, scratch_pad * scratch) {
 }
 
 
+// Knuth's generator (rng.c) is used to obfuscate email addresses predictably
+void ran_num_reset(void);
+
 void mmd_engine_export_token_tree(DString * out, mmd_engine * e, short format) {
+	// Every export obfuscates the same way, whatever was converted before
+	ran_num_reset();
 
 	// Process potential reference definitions
 	process_definition_stack(e);
